@@ -78,8 +78,9 @@ USES = [
     ("weak_zero_tuple", ":~ {SH}. [L@1,D*0]"),
     ("sum_arith_tuple", "a(X) :- X = #sum {{ L,D/3 : {SH} }}."),
     ("sum_interval_group", "a(X) :- X = #sum {{ L : sh(1..2,L) }}."),
-    ("sum_arith_group", "a(X) :- X = #sum {{ L : sh(D+1,L), day(D) }}."),
-    ("min_arith_group", "#minimize {{ L@2 : sh(D+1,L), day(D) }}."),
+    ("sum_arith_group", "a(X) :- X = #sum {{ L : sh(D*1,L), day(D) }}."),
+    ("min_arith_group", "#minimize {{ L@2 : sh(D*1,L), day(D) }}."),
+    ("sum_arith_group_shift", "a(X) :- X = #sum {{ L : sh(D+1,L), day(D) }}."),
     ("sum_const_group", "a(X) :- X = #sum {{ L,1 : sh(1,L) }}."),
     ("weak_const_group", ":~ sh(1,L). [L@1,1]"),
     ("sum_fun_group", "a(X) :- X = #sum {{ L,D : sh(D,L), day(D) ; L,f(D) : sh(D,L), not day(D+1) }}."),
